@@ -128,6 +128,8 @@ type Exec struct {
 	noIfConv          bool
 	schedAll          bool
 	pinQuiet          bool
+	mapFixed          bool
+	randQueue         []*Term
 }
 
 type workItem struct {
